@@ -1172,6 +1172,103 @@ func (w *w1World) checkLiveness(cl *w1SimClient) {
 	}
 }
 
+// checkRecoverReply is the C02 (stream) / C03 (cache) oracle for one recovering
+// subscribe issued at quiescence. Ground truth is what the broker retains right now.
+func (w *w1World) checkRecoverReply(cl *w1SimClient, id uint32, req *protocol.SubscribeRequest) {
+	s := w.s
+	f := w.waitReply(cl, id)
+	if f == nil {
+		return
+	}
+	ch := req.Channel
+	hist, err := w.node.History(ch, WithLimit(-1))
+	if err != nil {
+		return
+	}
+	top := hist.StreamPosition
+	retained := hist.Publications
+	cache := chHas(ch, 'c')
+	prop := "C02"
+	if cache {
+		prop = "C03"
+	}
+	s.Probe("nontrivial:" + prop)
+	if f.Kind == "error" {
+		if f.ErrCode == ErrorUnrecoverablePosition.Code && req.Flag&subscriptionFlagRejectUnrecovered == 0 {
+			s.Violate(prop, "unrequested-112", "unrecoverable-position error although the client did not demand it", "%s offset=%d epoch=%q: error 112 without the reject flag", ch, req.Offset, req.Epoch)
+		}
+		return
+	}
+	if f.Kind != "subscribe" {
+		return
+	}
+	if !cache {
+		if !f.Recovered {
+			if len(f.Pubs) > 0 {
+				s.Violate("C02", "pubs-without-recovered", "publications returned with recovered=false", "%s offset=%d epoch=%q: recovered=false but %d publications", ch, req.Offset, req.Epoch, len(f.Pubs))
+			}
+			return
+		}
+		s.Probe("c02_recovered_true")
+		if req.Epoch != "" && req.Epoch != top.Epoch {
+			s.Violate("C02", "recovered-epoch-differs", "recovered=true although the epoch differs", "%s requested epoch %q, stream epoch %q, recovered=true", ch, req.Epoch, top.Epoch)
+		}
+		var expected []*Publication
+		for _, p := range retained {
+			if p.Offset > req.Offset {
+				expected = append(expected, p)
+			}
+		}
+		next := req.Offset + 1
+		for _, p := range expected {
+			if p.Offset != next {
+				s.Violate("C02", "recovered-with-missing", "recovered=true although a publication after the requested offset is missing from history", "%s requested offset %d, top %d: history holds offset %d where %d was expected", ch, req.Offset, top.Offset, p.Offset, next)
+				return
+			}
+			next++
+		}
+		if next-1 != top.Offset {
+			s.Violate("C02", "recovered-with-missing", "recovered=true although history does not reach the top", "%s requested offset %d: retained publications end at %d, top is %d", ch, req.Offset, next-1, top.Offset)
+			return
+		}
+		if lim := w.sc.Cfg.RecoveryMax; lim > 0 && len(expected) > lim {
+			s.Violate("C02", "recovered-truncated", "recovered=true although the recovery limit truncated the result", "%s: %d publications to recover, RecoveryMaxPublicationLimit %d, recovered=true with %d publications", ch, len(expected), lim, len(f.Pubs))
+			return
+		}
+		if len(f.Pubs) != len(expected) {
+			s.Violate("C02", "recovered-inexact", "recovered publications differ from history", "%s requested offset %d: %d publications returned, history has %d after it", ch, req.Offset, len(f.Pubs), len(expected))
+			return
+		}
+		for i, p := range expected {
+			if f.Pubs[i].Offset != p.Offset || f.Pubs[i].Data != string(p.Data) {
+				s.Violate("C02", "recovered-inexact", "recovered publications differ from history", "%s: publication %d is offset %d %s, history has offset %d %s", ch, i, f.Pubs[i].Offset, f.Pubs[i].Data, p.Offset, p.Data)
+				return
+			}
+		}
+		return
+	}
+	// cache mode
+	if len(f.Pubs) > 1 {
+		s.Violate("C03", "more-than-one", "cache recovery delivered more than one publication", "%s: %d publications", ch, len(f.Pubs))
+		return
+	}
+	var newest *Publication
+	if len(retained) > 0 {
+		newest = retained[len(retained)-1]
+	}
+	newestPresent := newest != nil && newest.Offset == top.Offset
+	sameState := req.Offset > 0 && req.Offset == top.Offset && req.Epoch == top.Epoch
+	if len(f.Pubs) == 1 {
+		if newest == nil || f.Pubs[0].Offset != newest.Offset || f.Pubs[0].Data != string(newest.Data) {
+			s.Violate("C03", "not-newest", "cache recovery delivered a publication that is not the newest", "%s: delivered offset %d %s, newest retained %v, top %d", ch, f.Pubs[0].Offset, f.Pubs[0].Data, newest, top.Offset)
+		}
+	}
+	want := newestPresent || sameState
+	if f.Recovered != want {
+		s.Violate("C03", "recovered-flag", fmt.Sprintf("cache recovered=%v but newest-present=%v same-position=%v", f.Recovered, newestPresent, sameState), "%s requested offset=%d epoch=%q, top offset=%d epoch=%q, retained=%d: recovered=%v", ch, req.Offset, req.Epoch, top.Offset, top.Epoch, len(retained), f.Recovered)
+	}
+}
+
 // checkLimits is the C37 oracle.
 func (w *w1World) checkLimits(cl *w1SimClient, instances []*w1Instance) {
 	s := w.s
